@@ -346,7 +346,8 @@ pub fn gen_script(src: &mut Src, kb_events: Vec<Event>, o: &SchedOpts, real_slee
     let kind = src.weighted(&[w_arrive, o.timeout_percent, if o.allow_interrupt && !interrupted { 3 } else { 0 }]);
     match kind {
       0 => {
-        let mut kb = match src.weighted(&[8, 40, 22, 12, 8, 5, 5]) {
+        let mut kb = match src.weighted(&[8, 38, 20, 11, 7, 5, 5, 6]) {
+          7 => src.range(7, 48), // a long burst in one notification
           n => n,
         };
         kb = kb.min(remaining).min(o.max_batch);
@@ -385,7 +386,7 @@ pub fn gen_script(src: &mut Src, kb_events: Vec<Event>, o: &SchedOpts, real_slee
     actions.push(Action::Arrive { kb: remaining, tablet: vec![], tablet_first: false, mid: vec![], spurious_kb: false });
   }
   // trailing time-outs / tablet events after the last key event
-  if src.chance(40) {
+  if src.chance(if o.timeout_percent >= 50 { 75 } else { 40 }) {
     let n = src.range(1, 3);
     for _ in 0..n {
       actions.push(Action::TimedOut);
